@@ -53,7 +53,8 @@ claim('C04',
       'Coq theorems: the table stage of the model can fail only with a genuine conflict of the automaton it was given, and on success the '
       'table holds exactly the demands of the machine\'s items (table_spec); every grammar the model of generate accepts is unambiguous and '
       'its emitted parser is a correct recogniser (all grammars, no validator); the lookahead sets of the machine are the least solution of the '
-      'LALR(1) propagation rules over its own LR(0) automaton (Build/DerProofs.v). Not proved: that this characterisation coincides with the '
+      'LALR(1) propagation rules over its own LR(0) automaton (Build/DerProofs.v), and a table is produced if and only if no two items of one '
+      'state demand different actions on one lookahead (exactness w.r.t. that automaton; Build/NoPanic.v table_iff_conflict_free). Not proved: that this characterisation coincides with the '
       'textbook definition (Ok iff the automaton obtained by merging canonical LR(1) item sets by core is conflict-free); it is decided per '
       'grammar by comparing the crate and the model with a brute-force canonical-LR(1)-then-merge reference on generated and textbook grammars.',
       COMMON_NOTE, 'Coq proof (builder-table invariant, table_spec, generator invariants) + differential against brute-force LALR(1) reference', 'DESIGN.md §5 C04')
